@@ -16,9 +16,8 @@ inductive PendKind where
   | run (sid : Nat) (slot : Nat)   -- handler still running after its POST was abandoned by the client
   | del (sid : Nat) (fresh : Bool)   -- `fresh` (ghost): the session was not yet closing when the DELETE was accepted
   | cls (sid : Nat)
-  -- POST number `n` whose body is still on its way; `fresh` (ghost): the session was not closing when its
-  -- headers arrived; `user`: whom the handler will see
-  | upl (sid : Nat) (n : Nat) (fresh : Bool) (user : UserTok)
+  -- POST number `n` whose body is still on its way; `user`: whom the handler will see
+  | upl (sid : Nat) (n : Nat) (user : UserTok)
 deriving DecidableEq, Repr
 
 structure Pend where
@@ -69,7 +68,7 @@ def completions (s : State) (pend : List Pend) : List (Tag × Nat) × List Pend 
                 else (done ++ [(p.tag, if closeErrOf s i then 2 else 1)], keep)
     | .slow _ _ => (done, keep ++ [p])
     | .run _ _ => (done, keep ++ [p])
-    | .upl _ _ _ _ => (done, keep ++ [p])) ([], [])
+    | .upl _ _ _ => (done, keep ++ [p])) ([], [])
 
 /-- The replay state: the model state and the harness-side bookkeeping of asynchronous requests. -/
 structure RState where
@@ -295,11 +294,12 @@ def modelOp (d : RState) (op : Op) : Option ROut :=
     else
       match step st (.postHead (ref.sid st.next) user.user) with
       | some (st1, .reject c) => some { base with st := st1, status := .code c }
-      | some (st1, .forward _ fresh) =>
+      | some (st1, .forward _ _) =>
         some { base with st := st1, status := .pending,
-                         pend := d.pend ++ [⟨.u (d.nasync + 1), .upl ((ref.sid st.next).getD 0) (d.nasync + 1) fresh user⟩] }
+                         pend := d.pend ++ [⟨.u (d.nasync + 1), .upl ((ref.sid st.next).getD 0) (d.nasync + 1) user⟩] }
       | _ => none
   | .body n fin =>
+    if st.cfg.stateless then none else
     match d.pend.find? (fun p => p.tag == Tag.u n) with
     | none => some { base with status := .noop }
     | some p =>
@@ -307,7 +307,7 @@ def modelOp (d : RState) (op : Op) : Option ROut :=
       else
         let rest := d.pend.filter (fun q => q.tag != p.tag)
         match p.kind with
-        | .upl i _ _ user =>
+        | .upl i _ user =>
           -- the body is complete: the `ping` is handed over (unless `Close` has begun), answered, the POST ends
           match step st (.postBody i .call) with
           | some (st1, .forward _ dlv) =>
@@ -315,7 +315,7 @@ def modelOp (d : RState) (op : Op) : Option ROut :=
                              done := [(p.tag, 200)], log := (if dlv then [⟨sname i, .tok user, .ping⟩] else []), pend := rest }
           | some (st1, .storeRefused c) =>
             some { base with st := doL st1 (.postEnd (some i) false), status := .ok, done := [(p.tag, c)], pend := rest }
-          | _ => none
+          | _ => some { base with status := .noop }   -- (never: the body of a POST in progress can always arrive)
         | _ => some { base with status := .noop }
 
 /-- One record: the operation, the settling at quiescence, the completions, the snapshot. -/
